@@ -176,6 +176,15 @@ func c18Custom(t *testing.T, sc *world.Scenario, out *Outcome) {
 					r.kvs = append(r.kvs, model.KV{Key: string(kv.Key), Val: kv.Value, Rev: uint64(kv.ModRevision)})
 				}
 			}
+		case "etcd.partitions":
+			// partition listing through the etcd API: a range request at the magic revision 1888
+			r.kind = "partitions"
+			resp, err := sn.Etcd.Range(ctx, &pb.RangeRequest{Key: []byte(r.key), RangeEnd: []byte(r.end), Revision: 1888})
+			if err != nil {
+				r.err = err.Error()
+			} else {
+				r.hdr = uint64(resp.Header.GetRevision())
+			}
 		case "etcd.count":
 			r.isCount = true
 			resp, err := sn.Etcd.Range(ctx, &pb.RangeRequest{Key: []byte(r.key), RangeEnd: []byte(r.end), CountOnly: true})
@@ -190,7 +199,7 @@ func c18Custom(t *testing.T, sc *world.Scenario, out *Outcome) {
 		reads = append(reads, r)
 		return r
 	}
-	readKinds := []string{"brain.get", "brain.range", "brain.count", "brain.partitions", "brain.rangestream", "etcd.get", "etcd.range", "etcd.count"}
+	readKinds := []string{"brain.get", "brain.range", "brain.count", "brain.partitions", "brain.rangestream", "etcd.get", "etcd.range", "etcd.count", "etcd.partitions"}
 	wn := 0
 	doWrite := func(sn *world.ServerNode, kind string) (err error, ok bool) {
 		wn++
